@@ -46,6 +46,12 @@ int main(void) {
     } else if (!strcmp(fn, "quantifier_mul")) printf("%d", (int)quantifier_mul((TSQuantifier)a[0], (TSQuantifier)a[1]));
     else if (!strcmp(fn, "quantifier_join")) printf("%d", (int)quantifier_join((TSQuantifier)a[0], (TSQuantifier)a[1]));
     else if (!strcmp(fn, "quantifier_add")) printf("%d", (int)quantifier_add((TSQuantifier)a[0], (TSQuantifier)a[1]));
+    else if (!strcmp(fn, "compare_versions")) {
+      // a: cost node_count dynamic_precedence+1000000 is_in_error ; b likewise -> verdict 0..4
+      ErrorStatus x = {a[0], a[1], (int)a[2] - 1000000, a[3] != 0};
+      ErrorStatus y = {a[4], a[5], (int)a[6] - 1000000, a[7] != 0};
+      printf("%d", (int)ts_parser__compare_versions(NULL, x, y));
+    } else if (!strcmp(fn, "const2")) printf("%u", (unsigned)MAX_COST_DIFFERENCE);
     else if (!strcmp(fn, "const")) {
       printf("%u %u %u %u %u %u %u %u %u %u", (unsigned)TS_MAX_INLINE_TREE_LENGTH, (unsigned)TS_MAX_TREE_POOL_SIZE,
         (unsigned)ERROR_COST_PER_RECOVERY, (unsigned)ERROR_COST_PER_MISSING_TREE, (unsigned)ERROR_COST_PER_SKIPPED_TREE,
